@@ -15,6 +15,9 @@ CONSTANTS
   PayLens = {9}
   BatchSizes = {1}
   AllowExplicit = FALSE
+  MaxDamage = 0
+  DamageKinds = {}
+  CrcQuarantinesBlock = FALSE
 INIT MCInit
 NEXT MCNext
 INVARIANTS VerdictOk Refines NextAboveAssigned BatchAtomic BufInv
